@@ -71,7 +71,7 @@ Proof. vm_compute. reflexivity. Qed.
    Spec.UpdateP.upd_p is the reference semantics of merging values that carry priorities: two mappings merge key by key (the result
    carries the higher priority); in every other case the older value survives iff its priority is STRICTLY higher.
    For any number of mapping documents whose scalars and enclosing mappings carry arbitrary !force / !weak / !metadata{{priority}}
-   tags (no !del / !new marks, no lists), in any order of strong / normal / weak writers, Builder.flatten succeeds and the tree it
+   tags (no !del / !notnew marks, no lists; !new, !unsafe and user metadata are free), in any order of strong / normal / weak writers, Builder.flatten succeeds and the tree it
    builds has exactly the priority image (values AND priorities of all nodes) of the left fold of upd_p over the documents' images
    [yprio] (every node carries the priority of its outermost tagged ancestor-or-self, else the default). *)
 Theorem C03_priorities_refine : forall e c y0 ys, Forall yz (y0 :: ys) -> forallb is_YM (y0 :: ys) = true ->
@@ -99,7 +99,7 @@ Proof. exact docs_leaf_path_winner. Qed.
 Print Assumptions C03_every_leaf_path_latest_of_highest.
 
 (* the same at the level of node trees (whatever built them): stages of the class NewZ - only scalars and mappings, no explicit
-   delete / new marks, priorities and everything else free *)
+   delete mark, no !notnew, priorities and everything else free *)
 Theorem C03_merge_is_prioritised_update : forall e s0 sts, Forall NewZ (s0 :: sts) -> forallb is_dictk (s0 :: sts) = true ->
   exists n, flatten e (s0 :: sts) = Ok n /\ perase n = fold_left upd_p (map perase sts) (perase s0).
 Proof. exact flatten_prio. Qed.
